@@ -66,6 +66,7 @@ structure GTask (T P I V : Type) where
   examples : List (List I × Option V)
   tries : Nat
   unique : Bool
+  deriving DecidableEq, Repr
 
 /-- the mutable fields of a `TaskGenerator`, the remaining draws of its samplers and the state
     of its evaluator -/
@@ -207,6 +208,7 @@ inductive ExRes (I V E St A : Type) where
   | done (tries : Nat) (exs : List (List I × Option V)) (inputs : AList A (List I)) (es : St)
   | raised (e : E) (inputs : AList A (List I)) (es : St)
   | stuck
+  deriving DecidableEq
 
 /-- task_generator.py:150-161 (after fix C18-F1)
     `while len(inputs) < samples and (self.max_tries - tries) + len(inputs) >= samples
@@ -232,6 +234,27 @@ def exLoop [DecidableEq A] [DecidableEq V] (cfg : Cfg T A P V E) (ev : Ev St P (
           else exLoop cfg ev sol arguments samples fuel (tries + 1) exs ind' es'
     else .done tries exs ind es
 
+/-- the example loop BEFORE fix C18-F1 (`len(inputs) < samples` missing from the condition):
+    kept only to state the finding (`finding_count_zero_before_fix`); not used by the model -/
+def exLoopUnfixed [DecidableEq A] [DecidableEq V] (cfg : Cfg T A P V E) (ev : Ev St P (List I) V E)
+    (sol : P) (arguments : List A) (samples : Int) :
+    Nat → Nat → List (List I × Option V) → AList A (List I) → St → ExRes I V E St A
+  | 0, tries, exs, ind, es => .done tries exs ind es
+  | fuel + 1, tries, exs, ind, es =>
+    if ((cfg.maxTries : Int) - tries) + exs.length ≥ samples ∧ tries < cfg.maxTries then
+      match sampleInput arguments ind with
+      | none => .stuck
+      | some (inp, ind') =>
+        match evalInput cfg ev es sol inp with
+        | (es', .error e) => .raised e ind' es'
+        | (es', .ok out) =>
+          if cfg.valid out = true ∧ out ∉ exs.map (·.2) then
+            if ((exs ++ [(inp, out)]).length : Int) ≥ samples then
+              .done (tries + 1) (exs ++ [(inp, out)]) ind' es'
+            else exLoopUnfixed cfg ev sol arguments samples fuel (tries + 1) (exs ++ [(inp, out)]) ind' es'
+          else exLoopUnfixed cfg ev sol arguments samples fuel (tries + 1) exs ind' es'
+    else .done tries exs ind es
+
 /-! ### `generate_task` -/
 
 /-- result of one call of `generate_task` -/
@@ -255,49 +278,62 @@ def bumpGenerated [DecidableEq T] (tr : T) (d : AList T Nat) : AList T Nat :=
   | some a => AList.insert tr (a + 1) d
   | none => d
 
-/-- task_generator.py:138-188 `while True: …` -/
+/-- one iteration of `while True` either leaves `generate_task` or goes round again -/
+inductive Iter (T A P I V E St : Type) where
+  | out (o : Out T A P I V E St)
+  | retry (s : State T A P I St)
+
+/-- task_generator.py:139-188 the body of `while True: …` -/
+def iteration [DecidableEq T] [DecidableEq A] [DecidableEq P] [DecidableEq V]
+    (cfg : Cfg T A P V E) (ev : Ev St P (List I) V E) (s : State T A P I St) :
+    Iter T A P I V E St :=
+  -- 139 type_request = self.generate_type_request()
+  match generateTypeRequest s.failed cfg.maxTries s.types with
+  | none => .out .stuck
+  | some (tr, ts) =>
+  let s1 : State T A P I St :=
+    { s with types := ts,
+             difficulty := if AList.contains tr s.difficulty then s.difficulty
+                           else AList.insert tr (0, 0) s.difficulty }
+  -- 143 solution, is_unique = self.generate_program(type_request)
+  match AList.lookup tr s.progs with
+  | none => .out (.raised cfg.keyError s1)
+  | some ds =>
+  match generateProgram s.seen cfg.maxTries (cfg.args tr).length cfg.usedVars ds with
+  | none => .out .stuck
+  | some ((sol, isUnique), ds') =>
+  -- 145 samples = self.gen_random_sample_number.sample(type=type_request)
+  match pop tr s.samples with
+  | none => .out .stuck
+  | some (samples, smp') =>
+  let s2 : State T A P I St := { s1 with progs := AList.insert tr ds' s.progs, samples := smp' }
+  -- 146-161 the example loop
+  match exLoop cfg ev sol (cfg.args tr) samples cfg.maxTries 0 [] s.inputs s.es with
+  | .stuck => .out .stuck
+  | .raised e ind es => .out (.raised e { s2 with inputs := ind, es := es })
+  | .done tries exs ind es =>
+    -- 163-164
+    let s3 : State T A P I St :=
+      { s2 with inputs := ind, es := es,
+                difficulty := bumpDifficulty tr tries exs.length s2.difficulty }
+    -- 167-169
+    if (exs.length : Int) < samples then
+      .retry { s3 with failed := setAdd tr s3.failed }
+    else
+      -- 170-188
+      .out (.task ⟨tr, sol, exs, tries, isUnique⟩
+        { s3 with failed := [], generated := bumpGenerated tr s3.generated,
+                  seen := if cfg.uniques && isUnique then setAdd sol s3.seen else s3.seen })
+
+/-- task_generator.py:138 `while True: …` (fuel: one type draw at least is consumed per iteration) -/
 def taskLoop [DecidableEq T] [DecidableEq A] [DecidableEq P] [DecidableEq V]
     (cfg : Cfg T A P V E) (ev : Ev St P (List I) V E) :
     Nat → State T A P I St → Out T A P I V E St
   | 0, _ => .stuck
   | fuel + 1, s =>
-    -- 139 type_request = self.generate_type_request()
-    match generateTypeRequest s.failed cfg.maxTries s.types with
-    | none => .stuck
-    | some (tr, ts) =>
-    let s1 : State T A P I St :=
-      { s with types := ts,
-               difficulty := if AList.contains tr s.difficulty then s.difficulty
-                             else AList.insert tr (0, 0) s.difficulty }
-    -- 143 solution, is_unique = self.generate_program(type_request)
-    match AList.lookup tr s1.progs with
-    | none => .raised cfg.keyError s1
-    | some ds =>
-    match generateProgram s1.seen cfg.maxTries (cfg.args tr).length cfg.usedVars ds with
-    | none => .stuck
-    | some ((sol, isUnique), ds') =>
-    -- 145 samples = self.gen_random_sample_number.sample(type=type_request)
-    match pop tr s1.samples with
-    | none => .stuck
-    | some (samples, smp') =>
-    let s2 : State T A P I St := { s1 with progs := AList.insert tr ds' s1.progs, samples := smp' }
-    -- 146-161 the example loop
-    match exLoop cfg ev sol (cfg.args tr) samples cfg.maxTries 0 [] s2.inputs s2.es with
-    | .stuck => .stuck
-    | .raised e ind es => .raised e { s2 with inputs := ind, es := es }
-    | .done tries exs ind es =>
-      -- 163-164
-      let s3 : State T A P I St :=
-        { s2 with inputs := ind, es := es,
-                  difficulty := bumpDifficulty tr tries exs.length s2.difficulty }
-      -- 167-169
-      if (exs.length : Int) < samples then
-        taskLoop cfg ev fuel { s3 with failed := setAdd tr s3.failed }
-      else
-        -- 170-188
-        .task ⟨tr, sol, exs, tries, isUnique⟩
-          { s3 with failed := [], generated := bumpGenerated tr s3.generated,
-                    seen := if cfg.uniques && isUnique then setAdd sol s3.seen else s3.seen }
+    match iteration cfg ev s with
+    | .out o => o
+    | .retry s' => taskLoop cfg ev fuel s'
 
 /-- task_generator.py:136-188 `generate_task` -/
 def generateTask [DecidableEq T] [DecidableEq A] [DecidableEq P] [DecidableEq V]
